@@ -1003,6 +1003,8 @@ int KSI_SignatureBuilder_openFromAggregationResp(const KSI_AggregationResp *resp
 				/* Copy this tag to the signature. */
 				res = KSI_TLV_appendNestedTlv(tmpTlv, t);
 				if (res != KSI_OK) {
+					/* The element was taken out of its list and belongs to nobody. */
+					KSI_TLV_free(t);
 					KSI_pushError(ctx, res, NULL);
 					goto cleanup;
 				}
